@@ -209,7 +209,13 @@ def conclude(pid, mod, tier, seed, m, wall):
         print('RESULT property=%s violated' % pid)
         return 1
     if m['inconclusive']:
+        shown = set()
         for r in m['inconclusive']:
+            import re as _re
+            k = _re.sub(r'shard \d+', 'shard N', r)[:300]
+            if k in shown or len(shown) >= 8:
+                continue
+            shown.add(k)
             print('INCONCLUSIVE property=%s reason=%s' % (pid, r.replace('\n', ' | ')[-900:]))
         return 2
     print('RESULT property=%s held on everything explored' % pid)
